@@ -12,6 +12,7 @@ import (
 	"github.com/opencontainers/go-digest"
 
 	zzos "github.com/regclient/regclient/internal/zzos"
+	"github.com/regclient/regclient/scheme"
 	"github.com/regclient/regclient/types/descriptor"
 	"github.com/regclient/regclient/types/manifest"
 	"github.com/regclient/regclient/types/mediatype"
@@ -206,4 +207,95 @@ func ZZC07_crash_manifest_delete() {
 		}
 	}
 	zzCrash(kept, true, "", "mdc")
+}
+
+// zzArtifactC builds artifact i with the given subject.
+func zzArtifactC(i int, subject descriptor.Descriptor) manifest.Manifest {
+	cfg := []byte{'{', '}'}
+	m, err := manifest.New(manifest.WithOrig(v1.Manifest{
+		Versioned:    v1.ManifestSchemaVersion,
+		MediaType:    mediatype.OCI1Manifest,
+		ArtifactType: "application/example.sig",
+		Config:       descriptor.Descriptor{MediaType: mediatype.OCI1Empty, Digest: digest.FromBytes(cfg), Size: 2},
+		Layers:       []descriptor.Descriptor{},
+		Subject:      &subject,
+		Annotations:  map[string]string{"zz.id": string(rune('0' + i))},
+	}))
+	zzAssert(err == nil, "artifact_builds")
+	return m
+}
+
+// zzTagsResolveDeep: every tagged entry of the index (the client's fallback
+// referrers tag included) names a manifest that is in the layout, and when
+// that manifest is an index, so are the manifests it lists.
+func zzTagsResolveDeep(pfx string) {
+	fs := zzos.Cur
+	ib, ok := fs.Data(zzLay + "/index.json")
+	if !ok {
+		return
+	}
+	var idx v1.Index
+	if json.Unmarshal(ib, &idx) != nil {
+		return
+	}
+	file := func(d digest.Digest) string {
+		return path.Join(zzLay, "blobs", d.Algorithm().String(), d.Encoded())
+	}
+	for _, e := range idx.Manifests {
+		if _, tagged := e.Annotations[aOCIRefName]; !tagged {
+			continue
+		}
+		b, ok := fs.Data(file(e.Digest))
+		zzAssert(ok, pfx+"_tagged_manifest_present")
+		var inner v1.Index
+		if ok && e.MediaType == mediatype.OCI1ManifestList && json.Unmarshal(b, &inner) == nil {
+			for _, c := range inner.Manifests {
+				zzAssert(fs.Exists(file(c.Digest)), pfx+"_tagged_index_lists_only_present_manifests")
+			}
+		}
+	}
+}
+
+// Crash during a referrer-bearing push or a referrer-aware delete: the
+// subject image is tagged, 0-2 artifacts already refer to it (stored through
+// the real API before the trace starts).
+func ZZC07_crash_referrers() {
+	zzos.Reset()
+	r, _ := ref.New("ocidir://" + zzLay)
+	zzos.Cur.Put(zzLay+"/oci-layout", []byte(zzMarker))
+	zzos.Cur.Put(zzLay+"/index.json", []byte(`{"schemaVersion":2,"mediaType":"application/vnd.oci.image.index.v1+json","manifests":[]}`))
+	o := New()
+	ctx := context.Background()
+	img := zzManifest(0)
+	zzAssert(o.ManifestPut(ctx, r.SetTag("a"), img) == nil, "rc_setup")
+	subj := img.GetDescriptor()
+	nPre := zzInt("pre_artifacts", 0, 2)
+	var arts []manifest.Manifest
+	for i := 0; i < 3; i++ {
+		arts = append(arts, zzArtifactC(i, subj))
+	}
+	for i := 0; i < nPre; i++ {
+		zzAssert(o.ManifestPut(ctx, r.SetDigest(arts[i].GetDescriptor().Digest.String()), arts[i]) == nil, "rc_setup")
+	}
+	p := &zzPre{r: r, tags: []string{"a"}, digs: []digest.Digest{subj.Digest}}
+	zzos.Cur.Mark()
+	if nPre > 0 && zzBool("delete") {
+		v := zzInt("victim", 0, nPre-1)
+		for k := 0; k < nPre; k++ {
+			if v == k {
+				v = k
+				break
+			}
+		}
+		err := o.ManifestDelete(ctx, r.SetDigest(arts[v].GetDescriptor().Digest.String()), scheme.WithManifestCheckReferrers())
+		zzAssert(err == nil, "rc_delete_succeeds")
+		zzReach("rc_referrer_deleted")
+	} else {
+		m := arts[nPre]
+		err := o.ManifestPut(ctx, r.SetDigest(m.GetDescriptor().Digest.String()), m)
+		zzAssert(err == nil, "rc_put_succeeds")
+		zzReach("rc_referrer_pushed")
+	}
+	zzCrash(p, true, "", "rc")
+	zzTagsResolveDeep("rc")
 }
